@@ -292,6 +292,16 @@ func genC18(out *caseWriter, seed uint64, n int, args []string) error {
 		if rodir && g%8 == 0 {
 			out.add(fmt.Sprintf("C18r-%d-%d", seed, g), "C18.fault", c18Encode("rodir", 0, names, contents))
 		}
+		if g%3 == 1 {
+			// the journals named through a symbolically linked directory and `..` (last -> arch/y2021; last/../x.knut is
+			// arch/x.knut for the kernel, but x.knut for path.Clean), with another file where the lexically cleaned path
+			// points: the file that was named is the one that is rewritten, and no other file is touched (seeded change
+			// C18g-format-writes-to-cleaned-path keyed its output by filepath.Clean(arg) and wrote there)
+			for p, limit := range []int{100000000, r.intn(maxLen)} {
+				in := "updir=1;" + c18Encode("rlimit", limit, names, contents)
+				out.add(fmt.Sprintf("C18u-%d-%d-%d", seed, g, p), "C18.fault", in)
+			}
+		}
 		if g%2 == 0 {
 			// the same group reached through symbolic links (seeded change C18-symlink-write-through
 			// was missed without these): one traced run, faults at 0, 1 and three random offsets
@@ -349,6 +359,17 @@ func obsC18(in string) string {
 		}
 		orig["real"] = true
 	}
+	updir := kv["updir"] == "1"
+	if updir {
+		if err := os.MkdirAll(filepath.Join(dir, "arch", "y2021"), 0o755); err != nil {
+			panic(err)
+		}
+		if err := os.Symlink(filepath.Join("arch", "y2021"), filepath.Join(dir, "last")); err != nil {
+			panic(err)
+		}
+		orig["arch"], orig["last"] = true, true
+	}
+	decoy := func(name string) string { return "# not the file that was named: " + name + "\n" }
 	if reps, _ := strconv.Atoi(kv["big"]); reps > 0 {
 		// big=<n>: the journal is the given text repeated n times (several megabytes)
 		for i := range files {
@@ -360,6 +381,11 @@ func obsC18(in string) string {
 		w := p
 		if link {
 			w = filepath.Join(dir, "real", f[0])
+		}
+		if updir {
+			os.WriteFile(p, []byte(decoy(f[0])), 0o644)
+			w = filepath.Join(dir, "arch", f[0])
+			p = dir + "/last/../" + f[0] // not filepath.Join, which cleans
 		}
 		if err := os.WriteFile(w, []byte(f[1]), 0o644); err != nil {
 			panic(err)
@@ -471,6 +497,11 @@ func obsC18(in string) string {
 			// the journal behind the link must be whole as well
 			if real, err := os.ReadFile(filepath.Join(dir, "real", f[0])); err != nil || !(string(real) == f[1] || (parses[i] && string(real) == news[i])) {
 				class = "other"
+			}
+		}
+		if updir {
+			if d, err := os.ReadFile(filepath.Join(dir, f[0])); err != nil || string(d) != decoy(f[0]) {
+				class = "other" // a file that was not named has been changed
 			}
 		}
 		finals = append(finals, f[0]+":"+class)
